@@ -163,7 +163,10 @@ def _merge_stats(dst, src):
         if isinstance(v, dict):
             _merge_stats(dst.setdefault(k, {}), v)
         elif isinstance(v, (int, float)) and not isinstance(v, bool):
-            dst[k] = dst.get(k, 0) + v
+            if k.startswith("max_") or k.startswith("max"):
+                dst[k] = max(dst.get(k, 0), v)          # a maximum over the workers, not a sum
+            else:
+                dst[k] = dst.get(k, 0) + v
         else:
             dst.setdefault(k, v)
 
